@@ -57,9 +57,15 @@ const variantMark = "\u200b"
 
 var wrapperNames = map[string]bool{"f1": true, "f2": true, "f3": true, "fodd": true, "g1": true, "g2": true}
 
+// cfgCalls counts the configurations built for the current case (reset per case, so a replay builds the same
+// ones): the ORDER in which the Config methods are called rotates -- a Config means the same whatever the order.
+var cfgCalls int
+
 // modelConfig registers the model's function table (spec/Semantics.tla, ApplyFF / ApplyAF).
 func modelConfig(log *callLog, accessor bool) jsonpath.Config {
 	variant := curVariant
+	cfgCalls++
+	order := cfgCalls % 3
 	mark := func(a []interface{}) []interface{} {
 		if variant == 1 {
 			a[0] = a[0].(string) + variantMark
@@ -67,6 +73,34 @@ func modelConfig(log *callLog, accessor bool) jsonpath.Config {
 		return a
 	}
 	cfg := jsonpath.Config{}
+	if accessor && order == 1 {
+		cfg.SetAccessorMode()
+	}
+	setAggregates := func() {
+		for _, name := range afNames {
+			name := name
+			cfg.SetAggregateFunction(name, func(vs []interface{}) (interface{}, error) {
+				cp := make([]interface{}, len(vs))
+				copy(cp, vs)
+				if log != nil {
+					log.calls = append(log.calls, callRec{Fn: name, Arg: cp, Acc: hasAccessor(cp)})
+				}
+				switch name {
+				case "gerr":
+					return nil, fmt.Errorf("boom-%s", name)
+				case "gcnt":
+					return float64(len(vs)), nil
+				}
+				return mark(append([]interface{}{name}, cp...)), nil
+			})
+		}
+	}
+	if order == 2 {
+		setAggregates()
+		if accessor {
+			cfg.SetAccessorMode()
+		}
+	}
 	for _, name := range ffNames {
 		name := name
 		cfg.SetFilterFunction(name, func(v interface{}) (interface{}, error) {
@@ -91,24 +125,10 @@ func modelConfig(log *callLog, accessor bool) jsonpath.Config {
 			return mark([]interface{}{name, v}), nil
 		})
 	}
-	for _, name := range afNames {
-		name := name
-		cfg.SetAggregateFunction(name, func(vs []interface{}) (interface{}, error) {
-			cp := make([]interface{}, len(vs))
-			copy(cp, vs)
-			if log != nil {
-				log.calls = append(log.calls, callRec{Fn: name, Arg: cp, Acc: hasAccessor(cp)})
-			}
-			switch name {
-			case "gerr":
-				return nil, fmt.Errorf("boom-%s", name)
-			case "gcnt":
-				return float64(len(vs)), nil
-			}
-			return mark(append([]interface{}{name}, cp...)), nil
-		})
+	if order != 2 {
+		setAggregates()
 	}
-	if accessor {
+	if accessor && order == 0 {
 		cfg.SetAccessorMode()
 	}
 	return cfg
